@@ -1261,3 +1261,42 @@ def enclosing_loops(fnode, stmt):
   from ..astutil import enclosing_chain
   return [x for (x, fld) in enclosing_chain(fnode, stmt)
           if isinstance(x, (ast.For, ast.While)) and not getattr(x, "_inl", False) and fld == "body"]
+
+
+def built_list(fn, cfg, du, nid, name):
+  """Loop <-> comprehension: if the local `name` is, on entry to node nid, a list built by
+  `name = []` and exactly one unconditional `name.append(ELT)` per iteration of one loop
+  `for T in IT:` (nothing else binds or mutates it, no break/continue/if in the loop), return the
+  equivalent comprehension pieces (ELT, T, IT, loop statement); else None."""
+  defs = du.defs.get(name, set())
+  muts = du.muts.get(name, set())
+  if len(defs) != 1 or len(muts) != 1:
+    return None
+  d = cfg.nodes[next(iter(defs))]
+  m = cfg.nodes[next(iter(muts))]
+  if not (d.kind == "stmt" and isinstance(d.stmt, ast.Assign) and len(d.stmt.targets) == 1 and
+          isinstance(d.stmt.targets[0], ast.Name)):
+    return None
+  v = d.stmt.value
+  if not ((isinstance(v, ast.List) and not v.elts) or
+          (isinstance(v, ast.Call) and dotted(v.func) == "list" and not v.args and not v.keywords)):
+    return None
+  s = m.stmt
+  if not (m.kind == "stmt" and isinstance(s, ast.Expr) and isinstance(s.value, ast.Call) and
+          isinstance(s.value.func, ast.Attribute) and s.value.func.attr == "append" and
+          isinstance(s.value.func.value, ast.Name) and s.value.func.value.id == name and
+          len(s.value.args) == 1 and not s.value.keywords):
+    return None
+  lp = innermost_loop(fn.node, s)
+  if lp is None or not isinstance(lp, ast.For) or lp.orelse:
+    return None
+  if not any(x is s for x in lp.body):
+    return None
+  if stmts_in(lp.body, (ast.If, ast.Continue, ast.Break, ast.Return, ast.Try, ast.While, ast.For)):
+    return None
+  heads = nodes_for(cfg, lp)
+  if not all(cfg.dominated_by(h, {d.id}) for h in heads) or \
+      not cfg.dominated_by(nid, heads) or innermost_loop(fn.node, d.stmt) is not \
+      innermost_loop(fn.node, lp):
+    return None
+  return s.value.args[0], lp.target, lp.iter, lp
